@@ -933,3 +933,127 @@ class Faults:
 
 
 REGISTRY["C13"] = Faults()
+
+
+# =====================================================================================
+# C17: value types through serde / text encodings; JSON wire contract with rbx_dom_lua
+#   proven (pure hand-written conversions): Properties/C17.v; tied to rbx_types by the serde17 correspondence;
+#   serde_json / bincode / rmp-serde and derive-generated code: implementation sweeps only (labelled partial)
+# =====================================================================================
+class Serde17(SimpleCorr):
+    kind = "serde17"
+    rule = ("(a) modelled text/table/blob conversions, implementation vs extracted Coq model, line-exact: Ref and UniqueId Display then "
+            "FromStr on boundary + random values (all sign/size classes of `random`), Ref::from_str / UniqueId::from_str on malformed "
+            "strings (signs, case, overflow by one, wrong lengths, non-ASCII at every field boundary: result or error class or panic), "
+            "Tags encode/decode on lists with empty/NUL-containing/multi-byte tags and decode on hostile blobs, MaterialColors "
+            "encode/decode on maps and on 69-byte and wrong-length blobs, Faces/Axes name lists (duplicates, any order, unknown names); "
+            "EXHAUSTIVE: all 65536 BrickColor numbers (from_number, Display, to_color3uint8, from_name), all 256 bytes as Faces and as "
+            "Axes (both serde forms), all 65536 FontWeight numbers and 256 FontStyle numbers; "
+            "(b) implementation sweeps: every one of the 40 Variant types from boundary pools (every float class incl. NaN payloads, "
+            "signed zeros, subnormals; integer extremes; empty/NUL/multi-byte/64 kB strings; nested Attributes) through serde_json "
+            "to_string/from_str, to_vec/from_slice, to_writer/from_reader, to_value/from_value, bincode, rmp-serde to_vec and "
+            "to_vec_named: decode(encode(v)) = v by bit pattern (values holding NaN/inf go through JSON as their finite twin; what "
+            "serde_json does with the original is classified in `generator`); (c) EXHAUSTIVE: every sample of "
+            "rbx_dom_lua/src/allValues.json decodes to its stated type and re-encodes to the same JSON document, then goes through "
+            "(b); non-trivial = every item; distinct by item text")
+    assumptions = [
+        "serde_json, bincode, rmp-serde and the derive-generated Serialize/Deserialize impls are not modelled: their part of C17 is checked on the implementation only (sampled per type, exhaustive over the fixture)",
+        "the Coq models of referent.rs, unique_id.rs, tags.rs, material_colors.rs, faces.rs, axes.rs, brick_color.rs, font.rs are hand-written and tied to the code by the serde17 correspondence; tables are regenerated from the source by tools/translate17.py (+ translate.py for the BrickColor rows)",
+        "Rust std semantics assumed by the model and validated by the correspondence: `{:0Nx}` formatting, `from_str_radix` (sign, digit, overflow order), `str` slicing at non-char-boundaries panics, `String::from_utf8` validity",
+        "values of Ref are constructed for the text checks through their bincode form (Ref has no public constructor from u128)",
+    ]
+
+    BORROWED = {"sharedstring", "binarystring", "faces", "axes"}
+
+    def pre(self, pid, out, tier, seed):
+        import translate17
+        self.pre_broken = None
+        try:
+            res = translate17.regenerate()
+            out.coverage["translator"] = {k: ("rewritten" if v else "unchanged") for k, v in res.items()}
+            if any(res.values()):
+                ok, o = vlib.build_model()       # the extracted tables must be the regenerated ones
+                if not ok:
+                    self.pre_broken = "the extracted model no longer builds after regenerating coq/Gen/Types17.v:\n" + o[-1500:]
+        except Exception as e:                    # TranslateError and anything the translator trips over: a broken tie
+            self.pre_broken = "translator failed (source table not found or not understood): %s" % e
+
+    def gen_cmds(self, seed, tier):
+        nv, nt = (1500, 600) if tier == "quick" else (60000, 30000)
+        return [["--seed", str(seed), "--cases", str(nv), "--part", "values"],
+                ["--seed", str(seed), "--cases", str(nt), "--part", "text"],
+                ["--part", "exhaustive"],
+                ["--part", "fixture"]]
+
+    def known_key(self, pid, oracle_line, case_lines):
+        """oracle key -> class key of known-findings.txt (each class names one root cause)"""
+        parts = oracle_line.split(" ", 3)
+        if len(parts) < 3:
+            return None
+        key, msg = parts[2], (parts[3] if len(parts) > 3 else "")
+        m = re.match(r"([a-z0-9]+)-(reader|value)$", key)
+        if m and m.group(1) in self.BORROWED:
+            # <&str>::deserialize / next_element::<&str>() cannot borrow from a reader or a serde_json::Value
+            return m.group(1) + "-borrowed-str" if "expected a borrowed string" in msg else key
+        if key == "tags-blob-empty-piece":
+            return "tags-empty"
+        return key
+
+    def run(self, pid, out, tier, seed, broken):
+        broken = broken or getattr(self, "pre_broken", None)
+        d = workdir(pid)
+        blocks = self.gen_blocks(pid, d, tier, seed)
+        impl, model, orc, st = self.run_cases(d, blocks, "main")
+        bmap = dict(blocks)
+        mine = [l for l in orc if (" " + pid + " ") in (" " + l + " ")]
+        dis = self.disagreements(blocks, impl, model)
+        known = vlib.known_keys(pid)
+        unlisted, seen_known = {}, {}
+        for l in mine:
+            cid = l.split(" ")[0]
+            key = self.known_key(pid, l, bmap.get(cid, []))
+            if key and key in known:
+                seen_known.setdefault(key, l)
+            else:
+                unlisted.setdefault(key or "?", l)
+        for key, l in seen_known.items():
+            out.known.append("key=%s %s (reproduced: %s)" % (key, known[key], l[:240]))
+        nobs = sum(len(v) for v in impl.values())
+        out.coverage.update({
+            "traces_validated_against_impl": nobs, "evaluations": sum(len(b[1]) for b in blocks),
+            "distinct_nontrivial": st.get("distinct_nontrivial", 0), "rule": self.rule,
+            "samples": [{"case": blocks[k][0], "lines": [x[:160] for x in blocks[k][1][:6]]} for k in range(min(3, len(blocks)))],
+            "generator": st, "corpus_cases": self.ncorpus, "cases": len(blocks), "disagreements": len(dis),
+            "oracle_failures": sum(st.get("oracle_failures_by_key", {}).values()),
+            "oracle_failures_by_key": st.get("oracle_failures_by_key", {}),
+            "known_findings_reproduced": sorted(seen_known), "unlisted_failure_classes": sorted(unlisted),
+            "partial": "serde libraries and derive-generated code are exercised, not modelled; the fixture lacks samples of: %s"
+                       % ", ".join(st.get("fixture_types_without_sample", [])),
+        })
+        out.assumptions += self.assumptions
+        # one violation per distinct unlisted failure class, each with its own shrunk replay
+        for key, l in sorted(unlisted.items()):
+            cid = l.split(" ")[0]
+            hit = lambda ls, key=key: [x for x in self.fails(pid, d, ls)[0] if self.known_key(pid, x, ls) == key]
+            if cid in bmap:
+                small = self.shrink(pid, d, bmap[cid], lambda ls: bool(hit(ls)))
+                o2 = hit(small)
+                text = o2[0] if o2 else l
+                rp = vlib.write_replay(pid, self.kind, "implementation oracle: " + text, small)
+            else:
+                text = l
+                rp = vlib.write_replay(pid, self.kind + "-sweep", "implementation oracle: " + l, [l])
+            out.violation("the implementation violates %s [%s]: %s" % (pid, key, text.split(" ", 3)[-1][:600]), rp, True)
+        if dis:
+            cid, k, text = dis[0]
+            small = self.shrink(pid, d, bmap[cid], lambda ls: bool(self.fails(pid, d, ls)[1]))
+            _, d2 = self.fails(pid, d, small)
+            what = d2[0][2] if d2 else text
+            rp = vlib.write_replay(pid, self.kind, what, small, broken="correspondence serde17 (Coq models of the rbx_types text/table/blob conversions vs implementation)")
+            out.violation("correspondence broken (model and implementation disagree on a modelled conversion): " + what, rp, False)
+        if broken:
+            rp = vlib.write_replay(pid, "proof", broken.split("\n")[0], broken.split("\n"), broken=broken.split("\n")[0])
+            out.violation(broken.split("\n")[0], rp, False)
+
+
+REGISTRY["C17"] = Serde17()
